@@ -355,6 +355,10 @@ func visitInstr(fr *frame, instr ssa.Instruction) continuation {
 
 	case *ssa.IndexAddr:
 		x := fr.get(instr.X)
+		if sr, ok := symRefFor(i, instr, x, fr.get(instr.Index)); ok {
+			fr.env[instr] = sr
+			return kNext
+		}
 		idx := i.asIntC(fr.get(instr.Index))
 		switch x := x.(type) {
 		case []value:
@@ -413,11 +417,67 @@ func visitInstr(fr *frame, instr ssa.Instruction) continuation {
 	return kNext
 }
 
+// symref is the address of cells[idx] for a symbolic idx; it is only created
+// when every use of the address is a load of a scalar (table lookups such as
+// unicode.properties[uint8(r)]), and is read as an ite chain.
+type symref struct {
+	cells []value
+	idx   sym
+}
+
+func symRefFor(i *interpreter, instr *ssa.IndexAddr, x value, idxv value) (symref, bool) {
+	s, ok := idxv.(sym)
+	if !ok {
+		return symref{}, false
+	}
+	refs := instr.Referrers()
+	if refs == nil || len(*refs) == 0 {
+		return symref{}, false
+	}
+	for _, r := range *refs {
+		u, ok := r.(*ssa.UnOp)
+		if !ok || u.Op != token.MUL {
+			return symref{}, false
+		}
+	}
+	var cells []value
+	switch x := x.(type) {
+	case []value:
+		cells = x
+	case *value:
+		if x == nil {
+			return symref{}, false
+		}
+		cells = (*x).(array)
+	default:
+		return symref{}, false
+	}
+	if len(cells) == 0 || len(cells) > 256 {
+		return symref{}, false
+	}
+	for _, c := range cells {
+		switch c.(type) {
+		case sym, bool, int, int8, int16, int32, int64, uint, uint8, uint16, uint32, uint64, uintptr:
+		default:
+			return symref{}, false
+		}
+	}
+	return symref{cells, s}, true
+}
+
 // symIndex reads cells[idx] for a symbolic idx as an ite chain (no forking
 // except for the bounds check) when all cells are integer scalars.
 func symIndex(i *interpreter, cells func(k int) value, n int, idx sym) (value, bool) {
-	if n == 0 || n > 256 {
+	if n == 0 || n > 4096 {
 		return nil, false
+	}
+	if n > 256 {
+		// large tables only when constant (they compress into runs)
+		for k := 0; k < n; k++ {
+			if _, isSym := cells(k).(sym); isSym {
+				return nil, false
+			}
+		}
 	}
 	first := cells(0)
 	_, k0 := i.termOf(first)
@@ -431,14 +491,24 @@ func symIndex(i *interpreter, cells func(k int) value, n int, idx sym) (value, b
 	}
 	ts := i.ts
 	w := idx.t.sort
-	inb := ts.Cmp("bvult", idx.t, ts.Const(w, uint64(n)))
+	inb := ts.Bool(true)
+	if w >= 64 || uint64(n) < (uint64(1)<<uint(w)) {
+		inb = ts.Cmp("bvult", idx.t, ts.Const(w, uint64(n)))
+	}
 	if !i.ps.decide(inb) {
 		i.rtPanic(fmt.Sprintf("index out of range [symbolic] with length %d", n))
 	}
+	// runs of equal cells become one range test (idx <= end of run): constant
+	// tables such as unicode.properties shrink from 256 to a few dozen cases
 	r, _ := i.termOf(cells(n - 1))
+	prev := r
 	for k := n - 2; k >= 0; k-- {
 		c, _ := i.termOf(cells(k))
-		r = ts.Ite(ts.Cmp("=", idx.t, ts.Const(w, uint64(k))), c, r)
+		if c == prev {
+			continue
+		}
+		r = ts.Ite(ts.Cmp("bvule", idx.t, ts.Const(w, uint64(k))), c, r)
+		prev = c
 	}
 	return valOf(r, k0), true
 }
